@@ -65,7 +65,7 @@ def build_lines(rng, sigs, idents, steps, imp):
         for ci, (si, v) in enumerate(changes):
             lines.append(((gen.change_text(rng, sigs[si], idents[si], v) + "\n").encode("latin1"), k, ci))
         if rng.random() < 0.1:
-            lines.append((b"$comment a b c $end\n", k, None))
+            lines.append((rng.choice([b"$comment a b c $end\n", b"$comment $end\n", b"$comment 1! #7 $end\n"]), k, None))
     return lines
 
 
